@@ -255,6 +255,26 @@ def compare(r, m, strict_class=True, compare_items=True):
                 if rp != mp:
                     bad.append("where-predicates of %s: implementation %s, model %s" % (n, rp, mp))
         bad += header_check(r)
+        # Default: a literal is wrapped in `::core::convert::Into::into( .. )` exactly where the model of
+        # `auto_adjust_expr` (Attr/Builders.lean: `adjust`) says so
+        for it, mit in zip(r["items"], items):
+            if not isinstance(it, dict) or mit["trait"] != "Default" or "tokens" not in it:
+                continue
+            tk = nospace(it["tokens"])
+            exprs = []
+            head = mit.get("head") or []
+            if len(head) >= 2 and head[0] == "typeexpr":
+                exprs.append(head[1])
+            for v in mit.get("variants") or []:
+                exprs += [f[1] for f in v.get("fields", []) if len(f) >= 2]
+            wrapped = {}
+            for e in exprs:
+                if isinstance(e, str) and e.startswith("into:"):
+                    wrapped[e[5:]] = wrapped.get(e[5:], 0) + 1
+            total = tk.count("::core::convert::Into::into(")
+            if total != sum(wrapped.values()) or any(tk.count("::core::convert::Into::into(%s)" % t) < n for t, n in wrapped.items()):
+                bad.append("Default: the implementation converts %d default expressions with Into, the model %d (%s)"
+                           % (total, sum(wrapped.values()), sorted(wrapped)))
         # Deref: the associated type `Target` is the fully dereferenced type of the designated field (model: head of the item)
         for it, mit in zip(r["items"], items):
             tgt = (it.get("assoc") or {}).get("Target") if isinstance(it, dict) else None
